@@ -639,6 +639,58 @@ HAND = [
     b"{a(b:1[c])}",
     b"{a(b:1{c:1})}",
     b"{a(b:1!)}",
+    # a number directly followed by "." is an "invalid number" even when the
+    # following tokens would otherwise be swallowed / legal
+    b"type A { a: Int = 1...x }",
+    b"type A { a: Int = 1. }",
+    b"type A { a: Int = 1.5.x }",
+    b"scalar S 1...",
+    b"scalar S 1_",
+    b"scalar S 1a",
+    b"scalar S 0x1",
+    b"scalar S 1 ...",
+    b"scalar S -",
+    b"scalar S \"unterminated",
+    b"scalar S \"\\q\"",
+    b"scalar S \xff",
+    b"scalar S ;",
+    b"query () { a }",
+    b"query ( ) { a }",
+    b"mutation M() @d { a }",
+    b"subscription(,){a}",
+    b"query Q(#c\n) { a }",
+    b"{ a(#c\n) }",
+    b"{ a @d(,) }",
+    b"{ a(b:1) (c:2) }",
+    b"{ a @d @d @d(a:1)(b:2) }",
+    b"{ a {b} {c} }",
+    b"{ a: b {c} d: e(f:1) {g} }",
+    b"{ ...F {a} }",
+    b"{ ...F(a:1) }",
+    b"{ ... on T on U {a} }",
+    b"{ ... on T {a} {b} }",
+    b"query Q Q { a }",
+    b"query Q @d ($a: Int) { a }",
+    b"query Q($a: Int) ($b: Int) { a }",
+    b"query Q($a: Int @d) { a }",
+    b"query Q($a: Int = 1 = 2) { a }",
+    b"query Q($a: Int!= 1) { a }",
+    b"query Q($a: [Int]= []) { a }",
+    b"query Q($a:Int=1$b:Int=2){a}",
+    b"query Q($a:Int=E$b:Int){a}",
+    b"query Q($a:T={}$b:T=[]){a}",
+    b"{a(b:$c:1)}",
+    b"{a(b:$c d:$e)}",
+    b"{a(b:[$c$d])}",
+    b"{a(b:{c:$d e:$f})}",
+    b"{a(b:E c:F)}",
+    b"{a(b:E:1)}",
+    b"{a(b:\"x\"c:\"y\")}",
+    b"{a(b:\"\"\"x\"\"\"c:\"\"\"y\"\"\")}",
+    b"{a(b:1 c:1.5 d:-1 e:-1.5e-5)}",
+    b"{a(b:[1-1])}",
+    b"{a(b:[1 -1])}",
+    b"{a(b:[-1-1.5-2e2])}",
 ]
 
 KEYWORD_NAMES = [
@@ -1245,7 +1297,32 @@ def build_corpus(n, seed):
             return b"{a #" + body + b"\n}"
         return ctx(q + body + q)
 
-    fill("utf8", int(n * 0.03), utf8_case)
+    fill("utf8", int(n * 0.05), utf8_case)
+
+    # systematic: every lead byte >= 0x80 with boundary continuation bytes,
+    # raw in a quoted string, in a block string and bare
+    conts2 = [None, 0x7f, 0x80, 0x8f, 0x90, 0x9f, 0xa0, 0xbf, 0xc0]
+    conts3 = [None, 0x80, 0xbf, 0x41]
+    for lead in range(0x80, 0x100):
+        for c1 in conts2:
+            for c2 in conts3:
+                for c3 in ((None, 0x80, 0xbf) if lead >= 0xf0 and c2 is not None else (None,)):
+                    seq = bytes(x for x in (lead, c1, c2, c3) if x is not None)
+                    add("utf8_enum", b'{a(b:"' + seq + b'")}')
+                    add("utf8_enum", b'{a(b:"""' + seq + b'""")}')
+    for b0 in range(1, 256):
+        add("byte_enum", b"{a " + bytes([b0]) + b" b}")
+        add("byte_enum", bytes([b0]))
+        add("byte_enum", b'{a(b:"' + bytes([b0]) + b'")}')
+        add("byte_enum", b'{a(b:"""' + bytes([b0]) + b'""")}')
+        add("byte_enum", b'{a(b:"\\' + bytes([b0]) + b'")}')
+        add("byte_enum", b"{a #" + bytes([b0]) + b"\n b}")
+        add("byte_enum", b"{a(b:1" + bytes([b0]) + b")}")
+        add("byte_enum", b"{a(b:1 " + bytes([b0]) + b")}")
+        add("byte_enum", b"type A " + bytes([b0]) + b" query {a}")
+    for cp in list(range(0, 0x100)) + list(range(0xd7f0, 0xe010)) + [0xfffe, 0xffff, 0x0800, 0x07ff]:
+        add("escape_enum", b'{a(b:"\\u%04x")}' % cp)
+        add("escape_enum", b'{a(b:"\\ud83d\\u%04X")}' % cp)
     return corpus, counts
 
 
